@@ -52,12 +52,25 @@ def run_case(stream, seed, ctx, params):
             ps = [x + rng.choice([0.0, 0.125, -0.25]) for x in ps]
         if rng.random() < 0.05:
             ps = ps[:-1]
+        elif rng.random() < 0.1:
+            k_ = rng.choice([400.0, 1000.0, 2500.0])
+            nlen = len(ps) - 6 if mn == 'arb' else len(ps)
+            ps = [x * k_ if i < nlen else x for i, x in enumerate(ps)]
         return c02.compare_card(ctx, 'macromodel', mn, ps, 'macromodel')
     kind = P.MACRO[seed % len(P.MACRO)]
     mn, ps = G.macrobody(rng, [kind])
     nf = G.nfacets(mn, ps)
     facet = None if rng.random() < 0.35 else rng.randint(1, nf)
+    big = rng.random() < 0.2
+    if big:
+        # the same body a thousand times larger (metres to kilometres: a reactor hall, a site model): every parameter of
+        # a macrobody is a length, except the facet descriptors of an ARB
+        k_ = rng.choice([400.0, 1000.0, 2500.0])
+        nlen = len(ps) - 6 if mn == 'arb' else len(ps)
+        ps = [x * k_ if i < nlen else x for i, x in enumerate(ps)]
     d = P.probe_deck(mn, ps, facet=facet)
+    if big:
+        d.probe_points = [[c_ * k_ for c_ in q] for q in G.sample_points(rng, 250)]
     r = run_deck(ctx, stream, d, [], rng, npts=params.get('npts', 300),
                  extra_sig={'body': kind, 'facet': facet})
     if r is not None:
